@@ -259,6 +259,7 @@ func runCheck(cfg *propertyConfig, tier, repo string, seed int) int {
 	nBounded, boundedOK := 0, 0 // bounded stand-ins: reported, never counted as proved
 	boundedWhy := map[string]string{}
 	var violations []string
+	seenViolationBase := map[string]bool{}
 	var knownHit []string
 	knownObls := 0
 	var fev []funcEvidence
@@ -278,6 +279,17 @@ func runCheck(cfg *propertyConfig, tier, repo string, seed int) int {
 			}
 			knownHit = append(knownHit, line)
 			return
+		}
+		// the same clause failing on several paths of one function (Engine B numbers them #k) is one violation
+		if o == nil || !o.Replayed {
+			base := name
+			if i := strings.LastIndex(base, "#"); i > 0 && strings.Trim(base[i+1:], "0123456789") == "" {
+				base = base[:i]
+			}
+			if seenViolationBase[base] {
+				return
+			}
+			seenViolationBase[base] = true
 		}
 		path := writeReplay(replayDir, cfg.ID, name, why, detail, o)
 		line := fmt.Sprintf("VIOLATION property=%s replay=%s", cfg.ID, path)
